@@ -1,6 +1,7 @@
 package main
 
 import (
+	"crypto/sha256"
 	"strconv"
 	"bytes"
 	"context"
@@ -190,6 +191,15 @@ func solveAll(units []*UnitResult, cfg solveConfig) (disagreements []string) {
 
 func oblFile(cfg solveConfig, name string) string {
 	s := strings.NewReplacer("/", "_", "(", "", ")", "", "*", "P", " ", "", "[", "_", "]", "", "$", "S", ">", "-", "@", "-", "#", "-").Replace(name)
+	// the replacement is not injective (map[K]map[K]V and map[K]V gave the same file: two obligations overwrote each
+	// other's query): long or bracketed names get a short hash of the real name
+	if strings.ContainsAny(name, "[]") || len(s) > 180 {
+		h := sha256.Sum256([]byte(name))
+		if len(s) > 150 {
+			s = s[:150]
+		}
+		s = fmt.Sprintf("%s.%x", s, h[:4])
+	}
 	return filepath.Join(cfg.workdir, s+".smt2")
 }
 
